@@ -38,12 +38,12 @@ func (o MOp) String() string { return mopNames[o] }
 type FnKind uint8
 
 const (
-	FnNone       FnKind = iota
-	FnSet               // (V, false)
-	FnDel               // (V, true): delete, returning a non-zero value
-	FnInc               // (old+1 | 1, false)
-	FnSetIfAbsent       // loaded ? (old, false) : (V, false)
-	FnDelIfPresent      // loaded ? (0, true) : (V, false)  -- never mind V when absent: stores V
+	FnNone         FnKind = iota
+	FnSet                 // (V, false)
+	FnDel                 // (V, true): delete, returning a non-zero value
+	FnInc                 // (old+1 | 1, false)
+	FnSetIfAbsent         // loaded ? (old, false) : (V, false)
+	FnDelIfPresent        // loaded ? (0, true) : (V, false)  -- never mind V when absent: stores V
 )
 
 var fnNames = [...]string{"", "set", "del", "inc", "setIfAbsent", "delIfPresent"}
